@@ -30,6 +30,14 @@ def CollisionFree (S : Nat) (now : Int) (old : Bytes) (t : Int) (d : Bytes) : Pr
 empty (just created) or at least a whole header -/
 def WellFormedOld (old : Bytes) : Prop := old = [] ∨ 16 ≤ old.length
 
+/-- the session id an operation is called with (gc and clock moves have none) -/
+def opTarget : Op → Option Bytes
+  | .save s _ _ => some s
+  | .crashSave _ s _ _ _ _ _ => some s
+  | .load s => some s
+  | .remove s => some s
+  | _ => none
+
 /-- the values handed to a (complete or crashed) save of `sid` along a history -/
 def savedValues (sid : Bytes) : List Op → List (Int × Bytes)
   | [] => []
